@@ -120,14 +120,17 @@ def check_vector_after(P, ver, s, precalls):
     P.stratum("emitted-after-other-accessor-calls")
 
 
-def check_dialogue(P, vtag, all_metrics, answers):
+def check_dialogue(P, vtag, all_metrics, answers, version_arg=None):
     P.evaluations += 1
     ver = DLG.VER_OF[vtag]
     case = {"dialogue": {"version": vtag, "all_metrics": all_metrics, "answers": answers}}
     if DLG.MODES:  # history part of the witness: modes and last sessions run earlier in this process
         case["dialogue"]["modes_before"] = [list(x) for x in DLG.MODES]
         case["dialogue"]["sessions_before"] = [list(x) for x in DLG.RECENT]
-    r = DLG.run_dialogue(vtag, all_metrics, answers)
+    alts = DLG.VERSION_ARG_ALT[vtag]  # 4 == 4.0, 3 == 3.0, 2 == 2.0 denote the same version
+    varg = alts[P.evaluations % len(alts)] if version_arg is None else version_arg
+    case["dialogue"]["version_arg"] = repr(varg)
+    r = DLG.run_dialogue(vtag, all_metrics, answers, version_arg=varg)
     if r["ret"] is None:
         P.stratum("dialogue-incomplete:" + str(r["exc"]))
         return
@@ -142,7 +145,8 @@ def check_case(P, case):
             DLG.run_dialogue(vt, am, C16.probe_answers(vt), limit=100000)
         for vt, am, ans in d.get("sessions_before") or []:
             DLG.run_dialogue(vt, am, ans)
-        check_dialogue(P, d["version"], d["all_metrics"], d["answers"])
+        va = d.get("version_arg")
+        check_dialogue(P, d["version"], d["all_metrics"], d["answers"], (float(va) if "." in va else int(va)) if va else None)
     elif "precalls" in case:
         check_vector_after(P, case["ver"], case["vector"], case["precalls"])
     else:
